@@ -69,6 +69,8 @@ def run_script(impl, cfg, script, nslots, seed=0, preempt=False):
             if (isinstance(r, dict) and not r['done']) or
             (not isinstance(r, dict) and r.kind == 'http' and not r.done)), key=str)
         facts['reqs'] = {rid: summarize(r) for rid, r in w.reqs.items()}
+        facts['blocked_sig'] = {str(rid): W.blocked_signature(w, w.reqs[rid])
+                                for rid in facts['blocked']}
     finally:
         w.close()
     return lines, facts
